@@ -26,7 +26,20 @@
 //!   bg M M …             `M | M … &`
 //!   wj O O …             `wait` with operands  O ::= K (`$jK`) | u (`99999`, never a child) | % (`%7`, no such job)
 //!   w                    `wait`
+//!                        | %st / %nap (job whose name starts so; ambiguous → the built-in fails, 2)
+//!                        | %% %+ (current job) | %- (previous job) | %N (job number N)
 //!   wu                   `wait 9999` (a pid that was never a child)
+//!   wx                   `wait -x` (invalid option, 2)         gj K   `( wait $jK )` (not the subshell's child, 127)
+//!   bn MS N              `nap MS N &` (a job that sleeps MS ms of virtual time, then exits N)
+//!   k SIG K              `kill -s SIG $jK`   SIG ∈ HUP INT QUIT KILL TERM USR1 STOP CONT
+//!   tw SIG N             `trap 'echo trapsig' SIG; ( nap 100; kill -s SIG $$; nap 100; exit N ) & wait $!`
+//!                        (the `wait` is interrupted by the trapped signal: status 384+SIG, trap run first)
+//!   ti                   `trap '' USR2; kill -s USR2 $$`
+//!   scp N                the same with `nap 300 N | drain` (the first member of a pipeline is stopped and continued)
+//!   sc N                 (first statement only) a foreground `( nap 300; exit N )` stopped and continued by a
+//!                        helper job while the shell waits for it
+//!   m1 / m0              set -m / set +m (job control: pipelines run in a subshell of their own process group)
+//!   fpo / fpi / fpb F F … a flow pipeline in a subshell whose stdout / stdin / both are closed
 //!   g N                  `( exit N )`          gg N            `( ( exit N ) )`
 //!   gp M M …             `( M | M … )`         gb N            `( st N & wait $! )`
 //!   gw A B               `( st A & st B & wait )`
@@ -204,9 +217,6 @@ impl Sched {
             .map(|(i, _)| i)
             .collect()
     }
-    fn unfinished(&self) -> usize {
-        self.tasks.borrow().iter().filter(|s| !s.done).count()
-    }
     /// Polls task `i` once (the future is taken out of the table while it runs, because the poll
     /// may call `spawn`).
     fn poll(&self, i: usize) {
@@ -325,7 +335,9 @@ fn run_sched(script: &str, mut chooser: Chooser) -> RunOut {
         }
         let r = sched.runnable();
         if r.is_empty() {
-            if status.is_some() && sched.unfinished() == 0 {
+            if status.is_some() {
+                // The main shell has finished and nothing is runnable.  Virtual time is not advanced any
+                // more: what is still asleep stays asleep (see notes/C13.md, "killed process runs on").
                 break;
             }
             // nothing is runnable: let virtual time pass if somebody sleeps, else the run is over
@@ -353,6 +365,11 @@ fn run_sched(script: &str, mut chooser: Chooser) -> RunOut {
         }
     }
 
+    if std::env::var("C13_DEBUG").is_ok() {
+        for (pid, p) in state.borrow().processes.iter() {
+            eprintln!("pid {pid} ppid {} state {:?} changed {}", p.ppid(), p.state(), p.state_has_changed());
+        }
+    }
     let (zombies, procs) = {
         let st = state.borrow();
         let z = st
@@ -409,6 +426,9 @@ fn render_member(t: &str) -> Option<String> {
     })
 }
 
+/// signals used by `k` and `tw` (names as `kill -s` takes them)
+const SIGNALS: [&str; 9] = ["HUP", "INT", "QUIT", "KILL", "TERM", "USR1", "USR2", "STOP", "CONT"];
+
 /// member of a flow pipeline: wN `spew N`, c `cat`, d `drain`, tK.S `take K S`, sN `st N`
 fn render_flow_member(t: &str) -> Option<String> {
     let (h, r) = t.split_at(1);
@@ -438,6 +458,54 @@ fn render_stmt(t: &str, nasync: &mut usize) -> Option<String> {
     let ws: Vec<&str> = t.split_whitespace().collect();
     let num = |w: &str| w.parse::<u32>().ok().filter(|n| *n < 256);
     Some(match ws.as_slice() {
+        ["m1"] => "set -m".to_string(),
+        ["m0"] => "set +m".to_string(),
+        ["bn", ms, n] => {
+            *nasync += 1;
+            format!("nap {} {} & j{}=$!", ms.parse::<u32>().ok().filter(|m| *m <= 100000)?, num(n)?, *nasync)
+        }
+        ["k", sig, k] if SIGNALS.contains(sig) => {
+            format!("kill -s {sig} $j{}", k.parse::<usize>().ok().filter(|k| *k >= 1 && *k <= *nasync)?)
+        }
+        ["tw", sig, n] if SIGNALS.contains(sig) => {
+            *nasync += 1;
+            format!(
+                "trap 'echo trap{}' {sig}\n( nap 100; kill -s {sig} $$; nap 100; exit {} ) & j{}=$!\nwait $j{}",
+                sig.to_lowercase(),
+                num(n)?,
+                *nasync,
+                *nasync
+            )
+        }
+        ["ti"] => "trap '' USR2; kill -s USR2 $$".to_string(),
+        ["gj", k] => format!("( wait $j{} )", k.parse::<usize>().ok().filter(|k| *k >= 1 && *k <= *nasync)?),
+        ["wx"] => "wait -x".to_string(),
+        ["scp", n] if *nasync == 0 => {
+            // the same for the first member of a pipeline (`wait_for_subshell_to_finish`)
+            *nasync = 2;
+            format!(
+                "st 0 & j1=$!\nwait $!\n( nap 100; kill -s STOP $(($!+2)); nap 100; kill -s CONT $(($!+2)) ) & j2=$!\nnap 300 {} | drain",
+                num(n)?
+            )
+        }
+        ["sc", n] if *nasync == 0 => {
+            // only as the first statement (the pid arithmetic needs a known process table): a foreground
+            // subshell is stopped and continued by a helper while the shell waits for it
+            *nasync = 2;
+            format!(
+                "st 0 & j1=$!\nwait $!\n( nap 100; kill -s STOP $(($!+2)); nap 100; kill -s CONT $(($!+2)) ) & j2=$!\n( nap 300; exit {} )",
+                num(n)?
+            )
+        }
+        [f @ ("fpo" | "fpi" | "fpb"), ms @ ..] if ms.len() >= 2 => {
+            let v: Option<Vec<String>> = ms.iter().map(|m| render_flow_member(m)).collect();
+            let redir = match *f {
+                "fpo" => ">&-",
+                "fpi" => "<&-",
+                _ => ">&- <&-",
+            };
+            format!("( {} ) {redir}", v?.join(" | "))
+        }
         ["pf1"] => "set -o pipefail".to_string(),
         ["pf0"] => "set +o pipefail".to_string(),
         ["p", ms @ ..] if ms.len() >= 2 => render_members(ms)?,
@@ -458,6 +526,8 @@ fn render_stmt(t: &str, nasync: &mut usize) -> Option<String> {
                 .map(|k| match *k {
                     "u" => Some("99999".to_string()),
                     "%" => Some("%7".to_string()),
+                    "%st" | "%nap" | "%%" | "%+" | "%-" => Some(k.to_string()),
+                    k if k.starts_with('%') => k[1..].parse::<u32>().ok().filter(|n| *n >= 1 && *n <= 6).map(|n| format!("%{n}")),
                     k => k.parse::<u32>().ok().filter(|k| *k >= 1 && *k <= *nasync as u32).map(|k| format!("$j{k}")),
                 })
                 .collect();
@@ -498,6 +568,21 @@ fn observe(o: &RunOut) -> String {
         return (if o.deadlock { "DEADLOCK" } else { "TIMEOUT" }).into();
     }
     let text = String::from_utf8_lossy(&o.stdout).into_owned();
+    // an exit status above 384 means "killed by / interrupted by signal n - 384": printed by name, the
+    // numbering of the virtual system being arbitrary
+    let status = |st: &str| -> String {
+        match st.parse::<i32>() {
+            Ok(n) if n > 384 => {
+                use yash_env::system::Signals as _;
+                let sys = VirtualSystem::new();
+                match sys.sig2str(n - 384) {
+                    Some(name) => format!("K{name}"),
+                    None => st.to_string(),
+                }
+            }
+            _ => st.to_string(),
+        }
+    };
     let mut bangs: Vec<String> = vec![];
     let mut toks: Vec<String> = vec![];
     for line in text.lines() {
@@ -520,12 +605,12 @@ fn observe(o: &RunOut) -> String {
                     format!("a{}", k + 1)
                 };
                 let x = if x == "-" { "-".to_string() } else { dec_str(x).unwrap_or_else(|| "?".into()) };
-                toks.push(format!("{st}/{bang}/{x}"));
+                toks.push(format!("{}/{bang}/{x}", status(st)));
             }
             None => toks.push(format!("o:{line}")),
         }
     }
-    format!("{} st={} z={}", toks.join(" "), o.status, o.zombies)
+    format!("{} st={} z={}", toks.join(" "), status(&o.status.to_string()), o.zombies)
 }
 
 // ------------------------------------------------------------------------------------------
@@ -605,6 +690,206 @@ fn gen_flow(r: &mut Rng) -> String {
     format!("fp {}", ms.join(" "))
 }
 
+#[derive(Clone, Copy, PartialEq)]
+enum JKind {
+    St,
+    Nap,
+    Other,
+}
+
+struct GJob {
+    kind: JKind,
+    open: bool,    // in the job table (not yet waited for)
+    fresh: bool,   // a napping job that certainly has not finished: no statement since it started let time pass
+    stopped: bool, // stopped by `k STOP`, not yet continued
+    igniq: bool,   // started without job control: ignores SIGINT and SIGQUIT
+}
+
+/// Programs around the job table and signals: every operand form of `wait`, jobs killed, stopped and
+/// continued by signals, `wait` interrupted by a trapped signal, job control on and off.  Race-free by
+/// construction: signals are sent only to napping jobs that cannot have finished (virtual time passes only
+/// when every process is blocked), a stopped job is continued before anything waits for it.  The state
+/// tracked here is mirrored by `St` in /verif/lean/YashModel/Proc/Prog.lean.
+fn gen_jobs_program(r: &mut Rng, thorough: bool) -> String {
+    let len = 3 + r.below(if thorough { 8 } else { 6 });
+    let mut stmts: Vec<String> = vec![];
+    let mut jobs: Vec<GJob> = vec![]; // job number K = index + 1
+    let mut epoch: Vec<usize> = vec![]; // jobs inserted since the table was last empty
+    let mut clean = true; // nothing removed from / stopped in the table since then
+    let mut monitor = false;
+    let new_job = |jobs: &mut Vec<GJob>, epoch: &mut Vec<usize>, kind: JKind, monitor: bool| {
+        jobs.push(GJob { kind, open: true, fresh: kind == JKind::Nap, stopped: false, igniq: !monitor });
+        epoch.push(jobs.len());
+    };
+    if r.chance(1, 4) {
+        // jobs 1 (waited for inside) and 2 (the helper, left open)
+        stmts.push(format!("{} {}", if r.chance(1, 2) { "sc" } else { "scp" }, r.pick(&STATUSES)));
+        jobs.push(GJob { kind: JKind::St, open: false, fresh: false, stopped: false, igniq: true });
+        jobs.push(GJob { kind: JKind::Other, open: true, fresh: false, stopped: false, igniq: true });
+        epoch = vec![2];
+        clean = true; // the table was emptied by `wait $!` before the helper was inserted
+    }
+    for _ in 0..len {
+        let st = *r.pick(&STATUSES);
+        let nopen = jobs.iter().filter(|j| j.open).count();
+        let s = match r.below(20) {
+            0..=1 if nopen < 3 => {
+                new_job(&mut jobs, &mut epoch, JKind::St, monitor);
+                format!("bg s{st}")
+            }
+            2 if nopen < 3 => {
+                new_job(&mut jobs, &mut epoch, JKind::Other, monitor);
+                format!("bg g{st}")
+            }
+            3..=6 if nopen < 3 => {
+                new_job(&mut jobs, &mut epoch, JKind::Nap, monitor);
+                format!("bn {} {st}", 1000 * jobs.len())
+            }
+            7..=10 => {
+                // a signal to a napping job that is certainly alive
+                let c: Vec<usize> = (0..jobs.len()).filter(|i| jobs[*i].open && jobs[*i].fresh).collect();
+                if c.is_empty() {
+                    format!("g {st}")
+                } else {
+                    let i = *r.pick(&c);
+                    let j = &mut jobs[i];
+                    let sig = if j.stopped {
+                        "CONT"
+                    } else {
+                        *r.pick(&["TERM", "KILL", "HUP", "INT", "INT", "QUIT", "USR1", "STOP", "STOP"])
+                    };
+                    match sig {
+                        "CONT" => j.stopped = false,
+                        "STOP" => {
+                            j.stopped = true;
+                            clean = false;
+                        }
+                        "INT" | "QUIT" if j.igniq => {}
+                        _ => {
+                            // dead: waited for at once (see notes/C13.md, "killed process runs on")
+                            j.fresh = false;
+                            j.open = false;
+                            stmts.push(format!("k {sig} {}", i + 1));
+                            for j in jobs.iter_mut() {
+                                j.fresh = false;
+                            }
+                            if jobs.iter().all(|j| !j.open) {
+                                epoch.clear();
+                                clean = true;
+                            } else {
+                                clean = false;
+                            }
+                            stmts.push(format!("wj {}", i + 1));
+                            continue;
+                        }
+                    }
+                    format!("k {sig} {}", i + 1)
+                }
+            }
+            11 if nopen < 3 => {
+                for j in jobs.iter_mut() {
+                    j.fresh = j.fresh && j.stopped; // time passes (a stopped job cannot finish)
+                }
+                new_job(&mut jobs, &mut epoch, JKind::Other, monitor);
+                format!("tw {} {st}", r.pick(&["USR1", "INT", "TERM", "HUP"]))
+            }
+            12 if r.chance(1, 2) => (if r.chance(1, 2) { "ti" } else { "wx" }).to_string(),
+            13 if !jobs.is_empty() => format!("gj {}", 1 + r.below(jobs.len())),
+            14 => {
+                monitor = !monitor;
+                (if monitor { "m1" } else { "m0" }).to_string()
+            }
+            15..=18 => {
+                // `wait` with operands of every form; a stopped job is continued first
+                let mut pre: Vec<String> = vec![];
+                for (i, j) in jobs.iter_mut().enumerate() {
+                    if j.stopped {
+                        j.stopped = false;
+                        pre.push(format!("k CONT {}", i + 1));
+                    }
+                }
+                stmts.extend(pre);
+                let n = 1 + r.below(3);
+                let mut ops: Vec<String> = vec![];
+                // resolution happens up front, against the table as it is now
+                let table: Vec<usize> = (0..jobs.len()).filter(|i| jobs[*i].open).collect();
+                let mut ambiguous = false;
+                let mut removed: Vec<usize> = vec![];
+                for _ in 0..n {
+                    let byname = |k: JKind| table.iter().filter(|i| jobs[**i].kind == k).copied().collect::<Vec<_>>();
+                    match r.below(12) {
+                        0..=2 if !table.is_empty() => {
+                            let i = *r.pick(&table);
+                            ops.push((i + 1).to_string());
+                            removed.push(i);
+                        }
+                        3 if !jobs.is_empty() => {
+                            let i = r.below(jobs.len());
+                            ops.push((i + 1).to_string());
+                            if table.contains(&i) {
+                                removed.push(i);
+                            }
+                        }
+                        4 => ops.push("u".to_string()),
+                        5 => ops.push("%".to_string()),
+                        6 | 7 => {
+                            let (tok, k) = if r.chance(1, 2) { ("%st", JKind::St) } else { ("%nap", JKind::Nap) };
+                            let m = byname(k);
+                            ops.push(tok.to_string());
+                            match m.len() {
+                                0 => {}
+                                1 => removed.push(m[0]),
+                                _ => ambiguous = true,
+                            }
+                        }
+                        8 if clean && !epoch.is_empty() => {
+                            ops.push((if r.chance(1, 2) { "%%" } else { "%+" }).to_string());
+                            removed.push(epoch[0] - 1);
+                        }
+                        9 if clean => {
+                            ops.push("%-".to_string());
+                            if epoch.len() >= 2 {
+                                removed.push(epoch[1] - 1);
+                            }
+                        }
+                        10 if clean && !epoch.is_empty() => {
+                            let n = 1 + r.below(epoch.len());
+                            ops.push(format!("%{n}"));
+                            removed.push(epoch[n - 1] - 1);
+                        }
+                        _ => ops.push((if r.chance(1, 2) { "u" } else { "%" }).to_string()),
+                    }
+                }
+                for j in jobs.iter_mut() {
+                    j.fresh = false; // time may pass
+                }
+                if !ambiguous {
+                    for i in &removed {
+                        jobs[*i].open = false;
+                    }
+                    if jobs.iter().all(|j| !j.open) {
+                        epoch.clear();
+                        clean = true;
+                    } else if !removed.is_empty() {
+                        clean = false;
+                    }
+                }
+                format!("wj {}", ops.join(" "))
+            }
+            19 => gen_flow(r).replacen("fp", *r.pick(&["fpo", "fpi", "fpb"]), 1),
+            _ => format!("g {st}"),
+        };
+        stmts.push(s);
+    }
+    for (i, j) in jobs.iter().enumerate() {
+        if j.stopped {
+            stmts.push(format!("k CONT {}", i + 1));
+        }
+    }
+    stmts.push("w".to_string());
+    stmts.join("; ")
+}
+
 /// A race-free program with at most 5 live processes (the shell included).
 fn gen_program(r: &mut Rng, thorough: bool) -> String {
     let len = 2 + r.below(if thorough { 7 } else { 5 });
@@ -621,8 +906,11 @@ fn gen_program(r: &mut Rng, thorough: bool) -> String {
             choice = 5; // nothing to wait for yet: start a job instead
         }
         let s = match choice {
-            0 => (if r.chance(1, 2) { "pf1" } else { "pf0" }).to_string(),
-            1 if room >= 3 => gen_flow(r),
+            0 => (*r.pick(&["pf1", "pf0", "m1", "m0"])).to_string(),
+            1 if room >= 3 => {
+                let f = gen_flow(r);
+                if r.chance(1, 4) { f.replacen("fp", *r.pick(&["fpo", "fpi", "fpb"]), 1) } else { f }
+            }
             2..=4 if room >= 2 => {
                 let n = 2 + r.below(room.min(4) - 1);
                 format!("{} {}", if r.chance(1, 5) { "np" } else { "p" }, gen_members(r, n, true).join(" "))
@@ -680,6 +968,7 @@ fn gen_program(r: &mut Rng, thorough: bool) -> String {
                 if r.chance(1, 2) { format!("gb {st}") } else { format!("qb {st}") }
             }
             16 if room >= 3 => format!("gw {st} {}", r.pick(&STATUSES)),
+            17 if r.chance(1, 3) => (if r.chance(1, 2) { "wx" } else { "ti" }).to_string(),
             17 => format!("q {st}"),
             18 => format!("qe {} {st}", r.pick(&WORDS)),
             19 if room >= 2 => format!("qq {st}"),
@@ -881,7 +1170,7 @@ fn main() {
     let mut index = 0usize;
     let mut progs: Vec<String> = FIXED_PROGRAMS.iter().map(|s| s.to_string()).collect();
     while progs.len() < nprog {
-        let p = gen_program(&mut rng, thorough);
+        let p = if progs.len() % 3 == 2 { gen_jobs_program(&mut rng, thorough) } else { gen_program(&mut rng, thorough) };
         if !progs.contains(&p) {
             progs.push(p);
         }
